@@ -105,6 +105,11 @@ func (ctx *Context) Apply(seq []glyph.Info) []glyph.Info {
 	return seq
 }
 
+// isMark reports whether the GDEF table classifies the glyph as a mark.
+func (ctx *Context) isMark(gid glyph.ID) bool {
+	return ctx.gdef != nil && ctx.gdef.GlyphClass[gid] == gdef.GlyphClassMark
+}
+
 // isReverseLookup reports whether all subtables of the lookup are reverse
 // chaining contextual single substitutions (GSUB lookup type 8).
 func isReverseLookup(l *LookupTable) bool {
